@@ -10,7 +10,8 @@ ASSUMPTIONS = [
     "tie: engine.compare on the same scripts",
     "oracle on the implementation: every explored history (mid-line, at choices, after errors, several flows, after path "
     "jumps) followed by RESET, explored in lock-step with a fresh instance; PATH with call-stack reset keeps variables "
-    "and counts and leaves one thread with one element",
+    "and counts and leaves one thread with one element; fault-injected programs played WITHOUT an error handler (faults "
+    "come back as Err), observers on the assigned globals, RESET, same lock-step",
 ]
 
 
@@ -138,6 +139,21 @@ def run(ctx):
                 fails.append(dict(key="path-reset-changes-variables", case=case, before=before, after=after))
             elif "threads=[1]" not in info or "choices=0" not in info:
                 fails.append(dict(key="path-reset-keeps-callstack", case=case, info=info))
+    # reset after a fault that was REPORTED AS Err (no error handler installed: continue_internal returns early):
+    # fault-injected programs, observers on the assigned globals, RESET, lock-step with a fresh instance.  The
+    # generators and the comparison are C04's; a random stream of its own, so nothing above / below changes.
+    from props import c04 as faults
+    fsub = faults._Sub(getattr(ctx, "seed", 0) * 1000003 + 17, ctx.quick())
+    fprogs = faults.fault_programs(fsub, 6 if ctx.quick() else 40)
+    fcases, fmeta, _ = faults.restore_cases(fsub, exe, fprogs, handlers=(False,), allow_load=False)
+    fres = {r["id"]: r for r in vlib.run_inkdrive(fcases, exe)}
+    ffails, fchecked, ffaulted = faults.restore_lockstep(fcases, fmeta, fres)
+    for f in ffails:
+        fails.append(dict(f, key="reset-after-reported-fault-" + ("values" if "values" in f["key"] else "play")
+                                 + "-differs-from-fresh"))
+    n_checked += fchecked
+    ctx.coverage["reset_after_reported_fault"] = dict(programs=len(fprogs), cases=len(fcases), compared=fchecked,
+                                                      with_fault_before_reset=ffaulted)
     sample = [c for c in cases if meta[c["id"]]["kind"] in ("reset", "resetjump")]
     ctx.rng.shuffle(sample)
     sample = sample[: (60 if ctx.quick() else 600)]
@@ -146,7 +162,7 @@ def run(ctx):
     mism = [r for r in cres if r["status"] in ("mismatch", "model-error")]
     agree = sum(1 for r in cres if r["status"] == "agree")
     ctx.coverage.update(dict(
-        evaluations=len(cases), distinct_nontrivial=n_checked,
+        evaluations=len(cases) + len(fcases), distinct_nontrivial=n_checked,
         rule="explored histories cut at every position (optionally followed by a flow switch, a path jump or running "
              "into the end) then RESET, explored to depth %d in lock-step with a fresh instance; plus path jumps with "
              "call-stack reset" % depth,
